@@ -69,6 +69,8 @@ type Profile struct {
 	MaxDelay time.Duration
 	// BufCap is the capacity of each direction in bytes (0 = unbounded).
 	BufCap int
+	// Trace logs every read and write (debugging).
+	Trace bool
 }
 
 const valKey = "simnet"
@@ -283,6 +285,9 @@ func (c *Conn) Read(p []byte) (int, error) {
 			sg := &s.segs[0]
 			if !sg.at.After(time.Now()) {
 				n := copy(p, sg.data)
+				if c.net.Profile.Trace {
+					t.Sim().Logf("read %s<-%s %d bytes %q", c.local, c.remote, n, clipb(p[:n]))
+				}
 				sg.data = sg.data[n:]
 				s.size -= n
 				if len(sg.data) == 0 {
@@ -367,6 +372,9 @@ func (c *Conn) Write(p []byte) (int, error) {
 			n = c.net.chunk(room)
 		}
 		seg := segment{data: append([]byte(nil), p[:n]...), at: time.Now()}
+		if c.net.Profile.Trace {
+			sim.Logf("write %s->%s %d bytes %q", c.local, c.remote, n, clipb(p[:n]))
+		}
 		if !c.Raw && c.net.Profile.MaxDelay > 0 {
 			d := time.Duration(sim.S.Choose(8)) * c.net.Profile.MaxDelay / 7
 			seg.at = seg.at.Add(d)
@@ -500,3 +508,10 @@ func (c *Conn) SetWriteDeadline(t time.Time) error {
 
 // Buffered returns the bytes written by the peer and not yet read here.
 func (c *Conn) Buffered() int { return c.in.size }
+
+func clipb(b []byte) string {
+	if len(b) > 24 {
+		return string(b[:12]) + "..." + string(b[len(b)-12:])
+	}
+	return string(b)
+}
